@@ -2,6 +2,7 @@ package sim
 
 import (
 	"fmt"
+	"strconv"
 	"strings"
 )
 
@@ -163,7 +164,16 @@ func c10Oracle(w *World, c *c10Ctl) *Violation {
 				continue
 			}
 			pre := mustParse(q.Pre)
-			had, wants := hasFinalizer(pre, c.finalizer), hasFinalizer(body, c.finalizer)
+			// what the request changes is judged against the version it was built from (the
+			// body's resourceVersion): an update from a stale copy that still lists the
+			// finalizer does not add it, and the server refuses it as a conflict anyway
+			base := pre
+			if rv, err := strconv.ParseInt(mstr(body, "resourceVersion"), 10, 64); err == nil {
+				if raw := w.Store.VersionAt(q.Res, q.NS, q.Name, rv); raw != nil {
+					base = mustParse(raw)
+				}
+			}
+			had, wants := hasFinalizer(base, c.finalizer), hasFinalizer(body, c.finalizer)
 			if !had && wants {
 				// (b) never added to a parent that is already being deleted
 				allDeleting := true
@@ -261,6 +271,33 @@ func c10Oracle(w *World, c *c10Ctl) *Violation {
 					if live != nil && mstr(live, "uid") == co.UID && !hasFinalizer(live, c.finalizer) {
 						sig := copySig(c.sig)
 						sig["finalizedAnswerListsChildren"] = "false"
+						// how the parent came to be without the finalizer: it never had it, or it
+						// lost it - and then, was the parent (as stored at that moment) still one
+						// the controller manages and not being deleted?
+						sig["finalizerLost"] = "never-had-it"
+						var prevVer Object
+						for i := range w.Store.History {
+							ev := &w.Store.History[i]
+							if ev.RV >= rv {
+								break
+							}
+							if ev.Res != pr || ev.NS != pns || ev.Name != co.Name {
+								continue
+							}
+							if ev.Type == "DELETED" {
+								prevVer = nil
+								continue
+							}
+							cur := mustParse(ev.Raw)
+							if mstr(cur, "uid") == co.UID && prevVer != nil && hasFinalizer(prevVer, c.finalizer) && !hasFinalizer(cur, c.finalizer) {
+								if metaRO(prevVer)["deletionTimestamp"] == nil && c.selects(prevVer) {
+									sig["finalizerLost"] = "removed-from-live-managed-parent"
+								} else {
+									sig["finalizerLost"] = "removed-while-unmanaged-or-deleting"
+								}
+							}
+							prevVer = cur
+						}
 						for _, h := range sy.Hooks {
 							if h.Kind == "finalize" && h.Code == 200 && h.Arrival < q.Arrival {
 								if r, err := parse(h.RespBody); err == nil {
